@@ -6,17 +6,41 @@ lean/PetgraphModel/Extracted/C18.lean.  `Theorems/C18.lean` proves that these ge
 coincide with the hand-written mirror model the other theorems are about, so a change of the source that
 alters one of them breaks a proof on the next `lake build`.
 
-Fail-closed: a source shape that is not recognised produces a file whose build fails, and exit code 1.
+graph6 (parsed with tools/rustexpr.py, one item per helper function):
+  g6.encN / g6.decN        `const N: usize`
+  g6.orderBits, g6.maxOrder   `get_graph_order_as_bits` evaluated to a decision list, generated as a Lean function
+                               order < 63  -> nb order 6
+                               order <= M  -> nb 63 6 ++ nb order 18       else none (panic)
+                           (the `(value, width)` table + flat_map, direct calls with `extend`, early `return`, the guard
+                           written as `order > M { panic }` all evaluate to the same list)
+  g6.padding               `while bits.len() % K != 0 { bits.push(P) }`  or  `bits.resize((bits.len() + K-1) / K * K, P)`
+  g6.chunk                 `.chunks(K)`
+  g6.encByte               `char::from((N + value) as u8)`; the value of a chunk is its big-endian base-2 number
+                           (`from_str_radix(_, 2)` of the joined digits, `fold(0, |v, &b| 2 * v + b)`, `(v << 1) | b`)
+  g6.encNumberBits / g6.decNumberBits   `(n >> i) & 1` for `i` in `(0..bits_length).rev()` (loop + push, or map + collect)
+  g6.upperTriangle         column-major walk over the strict upper triangle: for every node, one `is_adjacent(earlier, node)`
+                           per earlier node in iteration order (index loop over the collected ids, loop over the list of
+                           nodes seen so far, or `enumerate` + slice `[..col]`)
+  g6.decOffset             `(c as usize) - N`
+  g6.decHeader             `get_order_bytes_and_adj_matrix_bytes` evaluated: first == N -> (bytes[a..=b], bytes[c..]) else
+                           ([first], bytes[d..])
+  g6.decGroup              `get_number_as_bits(byte, K)` in `bytes_vector_to_bits_vector`
+  g6.decEdges              `for col in 1..order { for row in 0..col { if bits[i] == 1 { push((Ix::new(row), Ix::new(col))) } i += 1 } }`
+Dot (regular expressions on src/dot/mod.rs, one item each): dot.TYPE dot.EDGE dot.INDENT dot.rankdir dot.escaper dot.literals
 
-usage: tools/extract_c18.py [--repo /repo] [--out <file>]
+Outcomes per item: recognised / changed / unrecognised (baseline kept, correspondence search widened) / broken
+(file or function missing: fail-closed) — tools/tielib.py.
+
+usage: tools/extract_c18.py [--repo /repo] [--out <file>] [--write-baseline]
 """
 import os, re, sys
+sys.path.insert(0, os.path.dirname(os.path.abspath(__file__)))
+import rustexpr as R
+from rustexpr import Unrecognised
+from tielib import Tie, Broken, ROOT
 
-ROOT = os.path.dirname(os.path.dirname(os.path.abspath(__file__)))
-
-
-class Unrecognised(Exception):
-    pass
+P = lambda *segs: ("path", tuple(segs))
+NUM = lambda n: ("num", n)
 
 
 def need(pattern, text, what, flags=0):
@@ -24,26 +48,6 @@ def need(pattern, text, what, flags=0):
     if not m:
         raise Unrecognised(what)
     return m
-
-
-def rust_unescape(body, what):
-    """characters of the inside of a Rust char or string literal (the escapes Dot's tables use)"""
-    out, i = [], 0
-    while i < len(body):
-        c = body[i]
-        if c == "\\":
-            if i + 1 >= len(body):
-                raise Unrecognised(what + ": dangling backslash")
-            e = body[i + 1]
-            table = {"n": "\n", "t": "\t", "r": "\r", "\\": "\\", "'": "'", '"': '"', "0": "\0"}
-            if e not in table:
-                raise Unrecognised(what + ": escape \\" + e)
-            out.append(table[e])
-            i += 2
-        else:
-            out.append(c)
-            i += 1
-    return out
 
 
 def lean_char(c):
@@ -59,156 +63,484 @@ def lean_chars(cs):
     return "[" + ", ".join(lean_char(c) for c in cs) + "]"
 
 
-def extract(repo):
-    enc = open(os.path.join(repo, "src/graph6/graph6_encoder.rs")).read()
-    dec = open(os.path.join(repo, "src/graph6/graph6_decoder.rs")).read()
-    dot = open(os.path.join(repo, "src/dot/mod.rs")).read()
-    d = {}
+def defs(**kv):
+    return "".join("def %s : Nat := %d\n" % (k, v) for k, v in kv.items())
 
-    # ---- graph6 encoder
-    d["encN"] = int(need(r"const N: usize = (\d+);", enc, "encoder: const N").group(1))
-    m = need(
-        r"fn get_graph_order_as_bits\(order: usize\) -> Vec<usize> \{\s*"
-        r"let to_convert_to_bits = if order < N \{\s*vec!\[\(order, (\d+)\)\]\s*"
-        r"\} else if order <= (\d+) \{\s*vec!\[\(N, (\d+)\), \(order, (\d+)\)\]\s*"
-        r"\} else \{\s*panic!\(",
-        enc, "encoder: get_graph_order_as_bits")
-    d["shortBits"], d["maxOrder"], d["markerBits"], d["longBits"] = (int(x) for x in m.groups())
-    m = need(r"while bits\.len\(\) % (\d+) != 0 \{\s*bits\.push\((\d+)\);", enc, "encoder: padding loop")
-    d["encGroup"], d["padBit"] = int(m.group(1)), int(m.group(2))
-    d["encChunk"] = int(need(r"\.chunks\((\d+)\)", enc, "encoder: chunks").group(1))
-    need(r"char::from\(\(N \+ byte\.unwrap\(\)\) as u8\)", enc, "encoder: N + byte")
-    need(r"for i in \(0\.\.bits_length\)\.rev\(\) \{\s*bits\.push\(\(n >> i\) & 1\);", enc, "encoder: get_number_as_bits")
-    need(r"for i in 1\.\.=n \{\s*let is_adjacent: bool =\s*graph\.is_adjacent\(&adj_matrix, node_ids_vec\[i - 1\], node_ids_vec\[n\]\);",
-         enc, "encoder: upper triangle loop")
 
-    # ---- graph6 decoder
-    d["decN"] = int(need(r"const N: usize = (\d+);", dec, "decoder: const N").group(1))
-    need(r"\.map\(\|c\| \(c as usize\) - N\)", dec, "decoder: c - N")
-    m = need(
-        r"if first_byte == N \{\s*order_bytes\.extend_from_slice\(&bytes\[(\d+)\.\.=(\d+)\]\);\s*"
-        r"adj_matrix_bytes\.extend_from_slice\(&bytes\[(\d+)\.\.\]\);\s*"
-        r"\} else \{\s*order_bytes\.push\(first_byte\);\s*adj_matrix_bytes\.extend_from_slice\(&bytes\[(\d+)\.\.\]\);",
-        dec, "decoder: header split")
-    d["longFrom"], d["longTo"], d["longBody"], d["shortBody"] = (int(x) for x in m.groups())
-    d["decGroup"] = int(need(r"flat_map\(\|&byte\| get_number_as_bits\(byte, (\d+)\)\)", dec, "decoder: bits per byte").group(1))
-    need(r"for col in 1\.\.order \{\s*for lin in 0\.\.col \{\s*let is_adjacent = adj_matrix_bits\[i\] == 1;", dec,
-         "decoder: column-major loops")
-    need(r"edges\.push\(\(Ix::new\(lin\), Ix::new\(col\)\)\);", dec, "decoder: edge orientation")
+# ------------------------------------------------------------------------------------------------------------------
+# graph6
 
-    # ---- Dot tables
-    m = need(r'static TYPE: \[&str; 2\] = \["([^"]*)", "([^"]*)"\];', dot, "dot: TYPE")
-    d["TYPE"] = (m.group(1), m.group(2))
-    m = need(r'static EDGE: \[&str; 2\] = \["([^"]*)", "([^"]*)"\];', dot, "dot: EDGE")
-    d["EDGE"] = (m.group(1), m.group(2))
-    d["INDENT"] = need(r'static INDENT: &str = "([^"]*)";', dot, "dot: INDENT").group(1)
-    rd = re.findall(r'RankDir::(\w+) => "(\w+)",', dot)
-    if [k for k, _ in rd] != ["TB", "BT", "LR", "RL"]:
-        raise Unrecognised("dot: rankdir values")
-    d["rankdir"] = rd
+class G6:
+    def __init__(self, path, label):
+        self.label = label
+        try:
+            self.src = open(path).read()
+        except OSError as e:
+            self.err = Broken("cannot read %s: %s" % (path, e)); return
+        try:
+            self.F = R.parse_file(self.src)
+            self.err = None
+        except Unrecognised as e:
+            self.err = e
 
-    # ---- Escaper::write_char
-    m = need(r"fn write_char\(&mut self, c: char\) -> fmt::Result \{\s*match c \{(.*?)\n        \}\s*self\.0\.write_char\(c\)\s*\}",
-             dot, "dot: Escaper::write_char", re.S)
-    arms = []
-    body = re.sub(r"//[^\n]*", "", m.group(1))
-    for line in [l.strip() for l in body.split("\n") if l.strip()]:
-        pa = re.fullmatch(r"((?:'(?:\\.|[^'\\])'\s*\|\s*)*'(?:\\.|[^'\\])')\s*=>\s*self\.0\.write_char\('((?:\\.|[^'\\]))'\)\?,", line)
-        ra = re.fullmatch(r"((?:'(?:\\.|[^'\\])'\s*\|\s*)*'(?:\\.|[^'\\])')\s*=>\s*return self\.0\.write_str\(\"((?:\\.|[^\"\\])*)\"\),", line)
-        if pa:
-            pats = [rust_unescape(x, "escaper arm")[0] for x in re.findall(r"'((?:\\.|[^'\\]))'", pa.group(1))]
-            arms.append(("prefix", pats, rust_unescape(pa.group(2), "escaper prefix")))
-        elif ra:
-            pats = [rust_unescape(x, "escaper arm")[0] for x in re.findall(r"'((?:\\.|[^'\\]))'", ra.group(1))]
-            arms.append(("replace", pats, rust_unescape(ra.group(2), "escaper replacement")))
-        elif line == "_ => {}":
-            arms.append(("default", [], []))
+    def fn(self, name):
+        if self.err: raise self.err
+        c = self.F.fn(name)
+        if not c: raise Broken("%s: function %s not found" % (self.label, name))
+        if len(c) > 1: raise Broken("%s: %d functions named %s" % (self.label, len(c), name))
+        if c[0].body is None: raise Unrecognised("%s: body of %s does not parse: %s" % (self.label, name, c[0].error))
+        return c[0]
+
+    def constN(self):
+        if self.err: raise self.err
+        d = self.F.consts.get("N", [])
+        d = [x for x in d if x[1] is None]
+        if len(d) != 1 or d[0][0][0] != "num":
+            raise Unrecognised("%s: `const N: usize = <int>;` not found" % self.label)
+        return d[0][0][1]
+
+    def with_consts(self, e):
+        m = {}
+        for name, ds in self.F.consts.items():
+            if len(ds) == 1 and ds[0][0][0] == "num":
+                m[P(name)] = ds[0][0]
+        return R.subst(e, m)
+
+
+def nb_call(e):
+    """get_number_as_bits(v, k) -> (v, k)"""
+    if e[0] == "call" and e[1] == P("get_number_as_bits") and len(e[2]) == 2 and e[2][1][0] == "num":
+        return e[2][0], e[2][1][1]
+    raise Unrecognised("expected get_number_as_bits(value, <int>), found %s" % R.show(e))
+
+
+def order_decision(enc):
+    f = enc.fn("get_graph_order_as_bits")
+    params = f.param_names()
+    if len(params) != 1 or params[0] is None: raise Broken("get_graph_order_as_bits: parameters")
+    v = R.Evaluator({}, 0).run_fn(f, [P("order")])
+    return R.norm(enc.with_consts(v))
+
+
+def order_bits(enc):
+    """the decision list as a Lean function of (nb = get_number_as_bits, order); `none` = panic"""
+    v = order_decision(enc)
+    def value(e):
+        free = {x for x in R.walk(e) if x[0] == "path"}
+        if free - {P("order")}: raise Unrecognised("get_graph_order_as_bits: value depends on %s" % R.show(sorted(free - {P("order")})[0]))
+        s = R.to_lean(e)
+        return s if re.fullmatch(r"\w+", s) else "(" + s + ")"
+    def bits(e):
+        parts = e[1] if e[0] == "concat" else (e,)
+        out = []
+        for p in parts:
+            val, k = nb_call(p)
+            out.append("nb %s %d" % (value(val), k))
+        return " ++ ".join(out)
+    def cond(c):
+        if c[0] == "cmp" and c[1] in ("<", "<=", "==") and {x for x in R.walk(c) if x[0] == "path"} <= {P("order")}:
+            return "%s %s %s" % (value(c[2]), {"<": "<", "<=": "≤", "==": "="}[c[1]], value(c[3]))
+        raise Unrecognised("get_graph_order_as_bits: condition %s" % R.show(c))
+    lines = []
+    def rec(e, first):
+        if e[0] == "ite":
+            lines.append("  %sif %s then %s" % ("" if first else "else ", cond(e[1]), leaf(e[2])))
+            rec(e[3], False)
         else:
-            raise Unrecognised("dot: escaper arm `%s`" % line)
-    if not arms or arms[-1][0] != "default" or any(a[0] == "default" for a in arms[:-1]):
-        raise Unrecognised("dot: escaper default arm")
-    d["arms"] = arms[:-1]
-
-    # ---- the label / statement literals of graph_fmt
-    need(r'writeln!\(f, "\{\} \{\{", TYPE\[g\.is_directed\(\) as usize\]\)\?;', dot, "dot: header")
-    need(r'writeln!\(f, "\{\}rankdir=\\"\{\}\\"", INDENT, value\)\?;', dot, "dot: rankdir line")
-    need(r'write!\(f, "\{\}\{\} \[ ", INDENT, g\.to_index\(node\.id\(\)\),\)\?;', dot, "dot: node line")
-    if len(re.findall(r'write!\(f, "label = \\""\)\?;', dot)) != 2 or len(re.findall(r'write!\(f, "\\" "\)\?;', dot)) != 2:
-        raise Unrecognised("dot: label delimiters")
-    need(r'"\{\}\{\} \{\} \{\} \[ ",\s*INDENT,\s*g\.to_index\(edge\.source\(\)\),\s*EDGE\[g\.is_directed\(\) as usize\],\s*g\.to_index\(edge\.target\(\)\),',
-         dot, "dot: edge line")
-    need(r'writeln!\(f, "\}\}"\)\?;', dot, "dot: footer")
-    need(r'if f\.alternate\(\) \{\s*writeln!\(&mut Escaper\(f\), "\{:#\}", &self\.0\)\s*\} else \{\s*write!\(&mut Escaper\(f\), "\{\}", &self\.0\)',
-         dot, "dot: Escaped::fmt")
-    return d
+            lines.append("  %s%s" % ("" if first else "else ", leaf(e)))
+    def leaf(e):
+        if e == R.PANIC: return "none"
+        if e[0] == "ite": raise Unrecognised("get_graph_order_as_bits: nested case distinction")
+        return "some (%s)" % bits(e)
+    if v[0] != "ite": raise Unrecognised("get_graph_order_as_bits: not a case distinction on the order")
+    rec(v, True)
+    return ("/-- `get_graph_order_as_bits` as a decision list (`nb` = `get_number_as_bits`, `none` = panic) -/\n"
+            "def orderBits (nb : Nat → Nat → List Bool) (order : Nat) : Option (List Bool) :=\n" + "\n".join(lines) + "\n")
 
 
-def render(d):
-    L = []
-    L.append("/-")
-    L.append("GENERATED by tools/extract_c18.py from /repo/src/graph6/graph6_encoder.rs, graph6_decoder.rs and")
-    L.append("/repo/src/dot/mod.rs — do not edit.  Constants and tables as the source states them; `Theorems/C18.lean`")
-    L.append("proves them equal to the definitions of the mirror models.")
-    L.append("-/")
-    L.append("namespace PetgraphModel.Extracted.C18")
-    L.append("")
-    for k in ["encN", "decN", "maxOrder", "shortBits", "markerBits", "longBits", "encGroup", "encChunk", "decGroup",
-              "padBit", "longFrom", "longTo", "longBody", "shortBody"]:
-        L.append("def %s : Nat := %d" % (k, d[k]))
-    L.append("")
-    L.append("/-- `TYPE[directed as usize]` -/")
-    L.append("def TYPE (directed : Bool) : List Char :=\n  if directed then %s else %s" % (lean_chars(d["TYPE"][1]), lean_chars(d["TYPE"][0])))
-    L.append("/-- `EDGE[directed as usize]` -/")
-    L.append("def EDGE (directed : Bool) : List Char :=\n  if directed then %s else %s" % (lean_chars(d["EDGE"][1]), lean_chars(d["EDGE"][0])))
-    L.append("def INDENT : List Char := %s" % lean_chars(d["INDENT"]))
-    L.append("def rankdirValues : List (List Char) := [%s]" % ", ".join(lean_chars(v) for _, v in d["rankdir"]))
-    L.append("")
-    L.append("/-- the arms of `Escaper::write_char`, in source order -/")
-    L.append("def escapeChar (c : Char) : List Char :=")
-    first = True
-    for kind, pats, payload in d["arms"]:
-        cond = " ∨ ".join("c = %s" % lean_char(p) for p in pats)
-        if kind == "prefix":
-            rhs = "[" + ", ".join([lean_char(x) for x in payload] + ["c"]) + "]"
+def max_order(enc):
+    """the largest supported order: the last condition `order <= M` before the panic branch"""
+    v = order_decision(enc)
+    last = None
+    while v[0] == "ite":
+        last, v = v, v[3]
+    if v != R.PANIC or last is None: raise Unrecognised("get_graph_order_as_bits: the last branch is not the panic")
+    c = last[1]
+    if c[0] == "cmp" and c[1] == "<=" and c[2] == P("order") and c[3][0] == "num": return defs(maxOrder=c[3][1])
+    if c[0] == "cmp" and c[1] == "<" and c[2] == P("order") and c[3][0] == "num" and c[3][1] > 0: return defs(maxOrder=c[3][1] - 1)
+    raise Unrecognised("get_graph_order_as_bits: the guard of the panic is not a bound on the order")
+
+
+def padding(enc):
+    f = enc.fn("bits_to_ascii")
+    bits = f.param_names()[0]
+    ln = R.norm(("mcall", P(bits), "len", ()))
+    found = []
+    for c, guards, loops, _ in R.collect_inlined(f.body, lambda x: x[0] == "mcall" and x[1] == P(bits) and x[2] == "push" and len(x[3]) == 1):
+        if len(loops) == 1 and loops[0][1][0] == "while" and not guards:
+            cv = R.norm(enc.with_consts(loops[0][1][1]))
+            pv = R.norm(c[3][0])
+            if cv[0] == "cmp" and cv[1] == "!=" and cv[3] == NUM(0) and cv[2][0] == "mod" and cv[2][1] == ln and cv[2][2][0] == "num" and pv[0] == "num":
+                found.append((cv[2][2][1], pv[1])); continue
+        raise Unrecognised("bits_to_ascii: a push that is not the padding loop")
+    for c, guards, loops, _ in R.collect_inlined(f.body, lambda x: x[0] == "mcall" and x[1] == P(bits) and x[2] == "resize" and len(x[3]) == 2):
+        if guards or loops: raise Unrecognised("bits_to_ascii: conditional resize")
+        tv, pv = R.norm(enc.with_consts(c[3][0])), R.norm(c[3][1])
+        ds = [x for x in R.walk(tv) if x[0] == "div" and x[2][0] == "num"]
+        if len(ds) != 1 or pv[0] != "num": raise Unrecognised("bits_to_ascii: resize target")
+        k = ds[0][2][1]
+        want = R.norm(("bin", "*", ("bin", "/", ("bin", "+", ln, NUM(k - 1)), NUM(k)), NUM(k)))
+        if tv != want: raise Unrecognised("bits_to_ascii: resize target is not the length rounded up to a multiple of %d" % k)
+        found.append((k, pv[1]))
+    if len(found) != 1: raise Unrecognised("bits_to_ascii: expected one padding step, found %d" % len(found))
+    return defs(encGroup=found[0][0], padBit=found[0][1])
+
+
+def chunk(enc):
+    f = enc.fn("bits_to_ascii")
+    cs = R.find(f.body, lambda x: x[0] == "mcall" and x[2] in ("chunks", "chunks_exact") and len(x[3]) == 1)
+    if len(cs) != 1: raise Unrecognised("bits_to_ascii: expected one `.chunks(K)`, found %d" % len(cs))
+    k = R.norm(enc.with_consts(cs[0][3][0]))
+    if k[0] != "num": raise Unrecognised("bits_to_ascii: chunk width is not a constant")
+    return defs(encChunk=k[1])
+
+
+def enc_byte(enc):
+    f = enc.fn("bits_to_ascii")
+    n = enc.constN()
+    offs, radix = [], []
+    for c, _, _, _ in R.collect_inlined(f.body, lambda x: x[0] == "call" and x[1] == P("char", "from") and len(x[2]) == 1):
+        a = c[2][0]
+        if a[0] != "cast" or a[2] != "u8": raise Unrecognised("bits_to_ascii: char::from of something that is not `(..) as u8`")
+        p = R.as_poly(R.norm(enc.with_consts(a[1])))
+        if sorted(len(m) for m in p) != [0, 1] or any(c_ != 1 for m, c_ in p.items() if m):
+            raise Unrecognised("bits_to_ascii: the character is not `<constant> + <chunk value>`: %s" % R.show(R.mk_poly(p)))
+        offs.append(p[()])
+    offs = sorted(set(offs))
+    for c, _, _, _ in R.collect_inlined(f.body, lambda x: x[0] == "call" and x[1][0] == "path" and x[1][1][-1] == "from_str_radix" and len(x[2]) == 2):
+        r = R.norm(c[2][1])
+        if r[0] != "num": raise Unrecognised("bits_to_ascii: radix")
+        radix.append(r[1])
+    for c, _, _, _ in R.collect_inlined(f.body, lambda x: x[0] == "mcall" and x[2] == "fold" and len(x[3]) == 2 and x[3][1][0] == "closure" and len(x[3][1][1]) == 2):
+        init = R.norm(c[3][0])
+        cl = R.norm(c[3][1])
+        acc, bit = P("_b0"), P("_b1")
+        body = cl[2]
+        if init[0] == "cast": init = init[1]
+        # `k * acc + bit`, or `(acc << s) | bit` (= 2^s * acc + bit for a 0/1 bit)
+        lin = body[1][0] if (body[0] == "bor" and len(body[1]) == 2 and body[1][0] == bit) else None
+        p = R.as_poly(body[1][1]) if lin is not None else R.as_poly(body)
+        k = p.get((acc,), 0)
+        ok = init == NUM(0) and k >= 1 and ((lin is not None and set(p) == {(acc,)} and k & (k - 1) == 0) or
+                                            (lin is None and set(p) == {(acc,), (bit,)} and p[(bit,)] == 1))
+        if not ok: raise Unrecognised("bits_to_ascii: fold is not a big-endian positional value: %s" % R.show(body))
+        radix.append(k)
+    radix = sorted(set(radix))
+    if len(offs) != 1: raise Unrecognised("bits_to_ascii: expected one char::from, found %d" % len(offs))
+    if len(radix) != 1: raise Unrecognised("bits_to_ascii: how a chunk becomes a number is not recognised")
+    return defs(encOffset=offs[0], encRadix=radix[0])
+
+
+def number_bits(g, defname):
+    """get_number_as_bits(n, bits_length) = `(n >> i) & 1` for i over `(0..bits_length).rev()` (most significant bit first) or
+    over `0..bits_length` (least significant first): generates the order as a Bool"""
+    f = g.fn("get_number_as_bits")
+    ps = f.param_names()
+    if len(ps) != 2 or None in ps: raise Broken("get_number_as_bits: parameters")
+    n, k = P(ps[0]), P(ps[1])
+    msb_iter = R.norm(("mcall", ("range", NUM(0), k, False), "rev", ()))
+    lsb_iter = R.norm(("range", NUM(0), k, False))
+    def order_of(it):
+        it = R.norm(it)
+        return "msb" if it == msb_iter else "lsb" if it == lsb_iter else None
+    def elem_ok(e, i):
+        e = R.norm(e)
+        while e[0] == "cast": e = e[1]
+        return e == R.norm(("bin", "&", ("bin", ">>", n, P(i)), NUM(1)))
+    hits = []
+    for c, guards, loops, _ in R.collect_inlined(f.body, lambda x: x[0] == "mcall" and x[2] == "push" and len(x[3]) == 1):
+        if len(loops) == 1 and not guards and loops[0][0][0] == "pid" and order_of(loops[0][1]) and elem_ok(c[3][0], loops[0][0][1]):
+            hits.append(order_of(loops[0][1]))
         else:
-            rhs = lean_chars(payload)
-        L.append("  %sif %s then %s" % ("" if first else "else ", cond, rhs))
-        first = False
-    L.append("  %s[c]" % ("" if first else "else "))
-    L.append("")
-    L.append("end PetgraphModel.Extracted.C18")
-    return "\n".join(L) + "\n"
+            raise Unrecognised("get_number_as_bits: push outside the expected loop")
+    for c, guards, loops, _ in R.collect_inlined(f.body, lambda x: x[0] == "mcall" and x[2] == "map" and len(x[3]) == 1 and x[3][0][0] == "closure"):
+        cl = c[3][0]
+        if order_of(c[1]) and len(cl[1]) == 1 and cl[1][0][0] == "pid" and elem_ok(cl[2], cl[1][0][1]) and not loops and not guards:
+            hits.append(order_of(c[1]))
+        else:
+            raise Unrecognised("get_number_as_bits: map over something else than (0..bits_length).rev()")
+    if len(hits) != 1: raise Unrecognised("get_number_as_bits: `(n >> i) & 1` for i in (0..bits_length).rev() not found")
+    return "def %s : Bool := %s\n" % (defname, "true" if hits[0] == "msb" else "false")
+
+
+def upper_triangle(enc):
+    f = enc.fn("get_adj_matrix_upper_diagonal_as_bits")
+    g = f.param_names()[0]
+    calls = R.collect_inlined(f.body, lambda x: x[0] == "mcall" and x[2] == "is_adjacent" and len(x[3]) == 3)
+    if len(calls) != 1: raise Unrecognised("upper triangle: expected one is_adjacent call, found %d" % len(calls))
+    c, guards, loops, _ = calls[0]
+    if guards or len(loops) != 2: raise Unrecognised("upper triangle: is_adjacent is not inside exactly two nested loops")
+    (op, oit), (ip, iit) = loops
+    a, b = R.norm(c[3][1]), R.norm(c[3][2])
+    oit_n, iit_n = R.norm(oit), R.norm(iit)
+    body = f.body
+    pushes = lambda var: R.find(body, lambda x: x[0] == "mcall" and x[1] == P(var) and x[2] == "push" and len(x[3]) == 1)
+    node_iter = R.norm(("mcall", P(g), "node_identifiers", ()))
+    # family 1 (index loop): for node in ids { v.push(node); for i in 1..=n { is_adjacent(v[i-1], v[n]) } n += 1 }
+    if op[0] == "pid" and ip[0] == "pid" and iit_n[0] == "range" and iit_n[1] == NUM(1) and iit_n[3] and iit_n[2][0] == "path":
+        nvar = iit_n[2]
+        if a[0] == "index" and b[0] == "index" and a[1] == b[1] and a[1][0] == "path" and b[2] == nvar \
+                and a[2] == R.norm(("bin", "-", P(ip[1]), NUM(1))) and oit_n == node_iter:
+            vec = a[1][1][0]
+            ps = pushes(vec)
+            incs = R.find(body, lambda x: x[0] == "assign" and x[1] == "+=" and x[2] == nvar and R.norm(x[3]) == NUM(1))
+            # the push must come before the inner loop and the counter must be bumped after it (checked by position in the loop body)
+            ob = [x for x in R.walk(body) if x[0] == "for" and x[1] == op][0][3]
+            kinds = []
+            for s in ob[1]:
+                ex = s[1] if s[0] == "semi" else None
+                if ex is None: continue
+                if ex[0] == "mcall" and ex[1] == P(vec) and ex[2] == "push" and R.norm(ex[3][0]) == P(op[1]): kinds.append("push")
+                elif ex[0] == "for": kinds.append("inner")
+                elif ex[0] == "assign" and ex[2] == nvar: kinds.append("inc")
+            if kinds == ["push", "inner", "inc"] and len(ps) == 1 and len(incs) == 1:
+                return ""
+    # family 2 (nodes seen so far): for node in ids { for &e in seen.iter() { is_adjacent(e, node) } seen.push(node) }
+    if op[0] == "pid" and oit_n == node_iter and b == P(op[1]):
+        ipn = ip
+        while ipn[0] == "pref": ipn = ipn[1]
+        it = iit_n
+        while it[0] == "mcall" and it[2] in ("iter", "copied", "cloned") and not it[3]: it = it[1]
+        if ipn[0] == "pid" and a == P(ipn[1]) and it[0] == "path" and len(it[1]) == 1:
+            seen = it[1][0]
+            ob = [x for x in R.walk(body) if x[0] == "for" and x[1] == op][0][3]
+            kinds = []
+            for s in ob[1]:
+                ex = s[1] if s[0] == "semi" else None
+                if ex is None: continue
+                if ex[0] == "mcall" and ex[1] == P(seen) and ex[2] == "push" and R.norm(ex[3][0]) == P(op[1]): kinds.append("push")
+                elif ex[0] == "for": kinds.append("inner")
+            if kinds == ["inner", "push"] and len(pushes(seen)) == 1:
+                return ""
+    # family 3 (enumerate + prefix slice): for (col, &c) in ids.iter().enumerate() { for &r in &ids[..col] { is_adjacent(r, c) } }
+    if op[0] == "ptuple" and len(op[1]) == 2 and op[1][0][0] == "pid":
+        col = op[1][0][1]
+        cp = op[1][1]
+        while cp[0] == "pref": cp = cp[1]
+        ipn = ip
+        while ipn[0] == "pref": ipn = ipn[1]
+        if cp[0] == "pid" and ipn[0] == "pid" and a == P(ipn[1]) and b == P(cp[1]):
+            if oit_n[0] == "mcall" and oit_n[2] == "enumerate" and oit_n[1][0] == "mcall" and oit_n[1][2] == "iter":
+                ids = oit_n[1][1]
+                pre = ("index", ids, ("range", None, P(col), False))
+                if iit_n == pre or (iit_n[0] == "mcall" and iit_n[2] == "iter" and not iit_n[3] and iit_n[1] == pre):
+                    # `ids` is the list of all node identifiers (collected from graph.node_identifiers(); locals are inlined)
+                    if R.find(ids, lambda x: x[0] == "mcall" and x[2] == "node_identifiers"):
+                        return ""
+    raise Unrecognised("upper triangle: the walk over the earlier nodes is not one of the recognised forms")
+
+
+def dec_offset(dec):
+    f = dec.fn("get_order_bytes_and_adj_matrix_bytes")
+    n = dec.constN()
+    hits = []
+    for c in R.find(f.body, lambda x: x[0] == "mcall" and x[2] == "map" and len(x[3]) == 1 and x[3][0][0] == "closure" and len(x[3][0][1]) == 1):
+        cl = R.norm(dec.with_consts(c[3][0]))
+        body = cl[2]
+        if body[0] == "sub" and body[2] == NUM(n):
+            x = body[1]
+            while x[0] == "cast": x = x[1]
+            if x == P("_b0"): hits.append(1)
+    if len(hits) != 1: raise Unrecognised("decoder: `(c as usize) - N` not found")
+    return ""
+
+
+def dec_header(dec):
+    f = dec.fn("get_order_bytes_and_adj_matrix_bytes")
+    v = R.norm(dec.with_consts(R.Evaluator({}, 0).run_fn(f)))
+    if v[0] != "tuple" or len(v[1]) != 2: raise Unrecognised("decoder header: result is not a pair")
+    x, y = v[1]
+    if x[0] != "ite" or y[0] != "ite" or x[1] != y[1]: raise Unrecognised("decoder header: not one case distinction")
+    c = x[1]
+    n = dec.constN()
+    if not (c[0] == "cmp" and c[1] == "==" and c[3] == NUM(n)): raise Unrecognised("decoder header: condition is not `first_byte == N`")
+    first = c[2]
+    def sl(e, what):
+        if e[0] == "index" and e[2][0] == "range": return e[1], e[2]
+        raise Unrecognised("decoder header: %s is not a slice of the bytes" % what)
+    b1, r1 = sl(x[2], "long order bytes")
+    b2, r2 = sl(y[2], "long body")
+    b3, r3 = sl(y[3], "short body")
+    if not (b1 == b2 == b3): raise Unrecognised("decoder header: slices of different vectors")
+    fb = first
+    while fb[0] in ("try",) : fb = fb[1]
+    if x[3] != ("list", (first,)): raise Unrecognised("decoder header: short order bytes are not [first_byte]")
+    ok = (r1[1] is not None and r1[1][0] == "num" and r1[2] is not None and r1[2][0] == "num" and
+          r2[1] is not None and r2[1][0] == "num" and r2[2] is None and r3[1] is not None and r3[1][0] == "num" and r3[2] is None)
+    if not ok: raise Unrecognised("decoder header: slice bounds")
+    lo, hi = r1[1][1], r1[2][1] if r1[3] else r1[2][1] - 1
+    return defs(longFrom=lo, longTo=hi, longBody=r2[1][1], shortBody=r3[1][1])
+
+
+def dec_group(dec):
+    f = dec.fn("bytes_vector_to_bits_vector")
+    cs = R.find(f.body, lambda x: x[0] == "call" and x[1] == P("get_number_as_bits") and len(x[2]) == 2)
+    if len(cs) != 1: raise Unrecognised("decoder: expected one get_number_as_bits call in bytes_vector_to_bits_vector")
+    k = R.norm(dec.with_consts(cs[0][2][1]))
+    if k[0] != "num": raise Unrecognised("decoder: bits per byte is not a constant")
+    return defs(decGroup=k[1])
+
+
+def dec_edges(dec):
+    f = dec.fn("get_edges")
+    ps = f.param_names()
+    if len(ps) != 2 or None in ps: raise Broken("get_edges: parameters")
+    order, bits = P(ps[0]), P(ps[1])
+    pushes = [x[:3] for x in R.collect_inlined(f.body, lambda x: x[0] == "mcall" and x[2] == "push" and len(x[3]) == 1)]
+    incs = [x[:3] for x in R.collect_inlined(f.body, lambda x: x[0] == "assign" and x[1] == "+=")]
+    if len(pushes) != 1 or len(incs) != 1: raise Unrecognised("get_edges: expected one push and one counter increment")
+    c, guards, loops = pushes[0]
+    if len(loops) != 2 or loops[0][0][0] != "pid" or loops[1][0][0] != "pid": raise Unrecognised("get_edges: loops")
+    col, row = loops[0][0][1], loops[1][0][1]
+    if R.norm(loops[0][1]) != ("range", NUM(1), order, False) or R.norm(loops[1][1]) != ("range", NUM(0), P(col), False):
+        raise Unrecognised("get_edges: the loops are not `for col in 1..order { for row in 0..col`")
+    if R.norm(c[3][0]) != ("tuple", (("call", P("Ix", "new"), (P(row),)), ("call", P("Ix", "new"), (P(col),)))):
+        raise Unrecognised("get_edges: the edge is not (Ix::new(row), Ix::new(col))")
+    inc, ig, il = incs[0]
+    if ig or il != loops or R.norm(inc[3]) != NUM(1) or inc[2][0] != "path": raise Unrecognised("get_edges: bit counter")
+    ivar = inc[2]
+    if len(guards) != 1 or not guards[0][1]: raise Unrecognised("get_edges: guard")
+    gv = R.norm(guards[0][0])
+    if gv != ("cmp", "==", ("index", bits, ivar), NUM(1)): raise Unrecognised("get_edges: the guard is not `bits[i] == 1`")
+    # the counter starts at 0
+    inits = [s for s in f.body[1] if s[0] == "let" and s[1][0] == "pid" and s[1][1] == ivar[1][0]]
+    if len(inits) != 1 or inits[0][3] != NUM(0): raise Unrecognised("get_edges: the bit counter does not start at 0")
+    return ""
+
+# ------------------------------------------------------------------------------------------------------------------
+# Dot (regular expressions, as before)
+
+def dot_items(T, repo, parts):
+    path = os.path.join(repo, "src/dot/mod.rs")
+    try:
+        dot = open(path).read()
+        err = None
+    except OSError as e:
+        dot, err = "", Broken("cannot read %s: %s" % (path, e))
+    def guarded(fn):
+        def run():
+            if err: raise err
+            return fn()
+        return run
+    W = "src/dot/mod.rs"
+    def type_():
+        m = need(r'static TYPE: \[&str; 2\] = \["([^"]*)", "([^"]*)"\];', dot, "dot: TYPE")
+        return ("/-- `TYPE[directed as usize]` -/\ndef TYPE (directed : Bool) : List Char :=\n  if directed then %s else %s\n"
+                % (lean_chars(m.group(2)), lean_chars(m.group(1))))
+    def edge_():
+        m = need(r'static EDGE: \[&str; 2\] = \["([^"]*)", "([^"]*)"\];', dot, "dot: EDGE")
+        return ("/-- `EDGE[directed as usize]` -/\ndef EDGE (directed : Bool) : List Char :=\n  if directed then %s else %s\n"
+                % (lean_chars(m.group(2)), lean_chars(m.group(1))))
+    def indent_():
+        return "def INDENT : List Char := %s\n" % lean_chars(need(r'static INDENT: &str = "([^"]*)";', dot, "dot: INDENT").group(1))
+    def rankdir_():
+        rd = re.findall(r'RankDir::(\w+) => "(\w+)",', dot)
+        if [k for k, _ in rd] != ["TB", "BT", "LR", "RL"]:
+            raise Unrecognised("dot: rankdir values")
+        return "def rankdirValues : List (List Char) := [%s]\n" % ", ".join(lean_chars(v) for _, v in rd)
+    def escaper_():
+        m = need(r"fn write_char\(&mut self, c: char\) -> fmt::Result \{\s*match c \{(.*?)\n        \}\s*self\.0\.write_char\(c\)\s*\}",
+                 dot, "dot: Escaper::write_char", re.S)
+        arms = []
+        body = re.sub(r"//[^\n]*", "", m.group(1))
+        for line in [l.strip() for l in body.split("\n") if l.strip()]:
+            pa = re.fullmatch(r"((?:'(?:\\.|[^'\\])'\s*\|\s*)*'(?:\\.|[^'\\])')\s*=>\s*self\.0\.write_char\('((?:\\.|[^'\\]))'\)\?,", line)
+            ra = re.fullmatch(r"((?:'(?:\\.|[^'\\])'\s*\|\s*)*'(?:\\.|[^'\\])')\s*=>\s*return self\.0\.write_str\(\"((?:\\.|[^\"\\])*)\"\),", line)
+            if pa:
+                pats = [R.unescape(x)[0] for x in re.findall(r"'((?:\\.|[^'\\]))'", pa.group(1))]
+                arms.append(("prefix", pats, R.unescape(pa.group(2))))
+            elif ra:
+                pats = [R.unescape(x)[0] for x in re.findall(r"'((?:\\.|[^'\\]))'", ra.group(1))]
+                arms.append(("replace", pats, R.unescape(ra.group(2))))
+            elif line == "_ => {}":
+                arms.append(("default", [], []))
+            else:
+                raise Unrecognised("dot: escaper arm `%s`" % line)
+        if not arms or arms[-1][0] != "default" or any(a[0] == "default" for a in arms[:-1]):
+            raise Unrecognised("dot: escaper default arm")
+        L = ["/-- the arms of `Escaper::write_char`, in source order -/", "def escapeChar (c : Char) : List Char :="]
+        first = True
+        for kind, pats, payload in arms[:-1]:
+            cond = " ∨ ".join("c = %s" % lean_char(p) for p in pats)
+            rhs = ("[" + ", ".join([lean_char(x) for x in payload] + ["c"]) + "]") if kind == "prefix" else lean_chars(payload)
+            L.append("  %sif %s then %s" % ("" if first else "else ", cond, rhs))
+            first = False
+        L.append("  %s[c]" % ("" if first else "else "))
+        return "\n".join(L) + "\n"
+    def literals_():
+        need(r'writeln!\(f, "\{\} \{\{", TYPE\[g\.is_directed\(\) as usize\]\)\?;', dot, "dot: header")
+        need(r'writeln!\(f, "\{\}rankdir=\\"\{\}\\"", INDENT, value\)\?;', dot, "dot: rankdir line")
+        need(r'write!\(f, "\{\}\{\} \[ ", INDENT, g\.to_index\(node\.id\(\)\),\)\?;', dot, "dot: node line")
+        if len(re.findall(r'write!\(f, "label = \\""\)\?;', dot)) != 2 or len(re.findall(r'write!\(f, "\\" "\)\?;', dot)) != 2:
+            raise Unrecognised("dot: label delimiters")
+        need(r'"\{\}\{\} \{\} \{\} \[ ",\s*INDENT,\s*g\.to_index\(edge\.source\(\)\),\s*EDGE\[g\.is_directed\(\) as usize\],\s*g\.to_index\(edge\.target\(\)\),',
+             dot, "dot: edge line")
+        need(r'writeln!\(f, "\}\}"\)\?;', dot, "dot: footer")
+        need(r'if f\.alternate\(\) \{\s*writeln!\(&mut Escaper\(f\), "\{:#\}", &self\.0\)\s*\} else \{\s*write!\(&mut Escaper\(f\), "\{\}", &self\.0\)',
+             dot, "dot: Escaped::fmt")
+        return ""
+    parts.append(T.item("dot.TYPE", ["C18"], W + ":TYPE", guarded(type_)))
+    parts.append(T.item("dot.EDGE", ["C18"], W + ":EDGE", guarded(edge_)))
+    parts.append(T.item("dot.INDENT", ["C18"], W + ":INDENT", guarded(indent_)))
+    parts.append(T.item("dot.rankdir", ["C18"], W + ":RankDir", guarded(rankdir_)))
+    parts.append(T.item("dot.escaper", ["C18"], W + ":Escaper::write_char", guarded(escaper_)))
+    parts.append(T.item("dot.literals", ["C18"], W + ":graph_fmt", guarded(literals_)))
+
+
+def build(repo, write_baseline=False):
+    T = Tie("extract_c18", write_baseline)
+    enc = G6(os.path.join(repo, "src/graph6/graph6_encoder.rs"), "encoder")
+    dec = G6(os.path.join(repo, "src/graph6/graph6_decoder.rs"), "decoder")
+    E, D = "src/graph6/graph6_encoder.rs", "src/graph6/graph6_decoder.rs"
+    parts = []
+    parts.append(T.item("g6.encN", ["C18"], E + ":N", lambda: defs(encN=enc.constN())))
+    parts.append(T.item("g6.decN", ["C18"], D + ":N", lambda: defs(decN=dec.constN())))
+    parts.append(T.item("g6.orderBits", ["C18"], E + ":get_graph_order_as_bits", lambda: order_bits(enc)))
+    parts.append(T.item("g6.maxOrder", ["C18"], E + ":get_graph_order_as_bits", lambda: max_order(enc)))
+    parts.append(T.item("g6.padding", ["C18"], E + ":bits_to_ascii", lambda: padding(enc)))
+    parts.append(T.item("g6.chunk", ["C18"], E + ":bits_to_ascii", lambda: chunk(enc)))
+    parts.append(T.item("g6.encByte", ["C18"], E + ":bits_to_ascii", lambda: enc_byte(enc)))
+    parts.append(T.item("g6.encNumberBits", ["C18"], E + ":get_number_as_bits", lambda: number_bits(enc, "encMsbFirst")))
+    parts.append(T.item("g6.upperTriangle", ["C18"], E + ":get_adj_matrix_upper_diagonal_as_bits", lambda: upper_triangle(enc)))
+    parts.append(T.item("g6.decOffset", ["C18"], D + ":get_order_bytes_and_adj_matrix_bytes", lambda: dec_offset(dec)))
+    parts.append(T.item("g6.decHeader", ["C18"], D + ":get_order_bytes_and_adj_matrix_bytes", lambda: dec_header(dec)))
+    parts.append(T.item("g6.decGroup", ["C18"], D + ":bytes_vector_to_bits_vector", lambda: dec_group(dec)))
+    parts.append(T.item("g6.decNumberBits", ["C18"], D + ":get_number_as_bits", lambda: number_bits(dec, "decMsbFirst")))
+    parts.append(T.item("g6.decEdges", ["C18"], D + ":get_edges", lambda: dec_edges(dec)))
+    parts.append("")
+    dot_items(T, repo, parts)
+    text = ("/-\nGENERATED by tools/extract_c18.py from /repo/src/graph6/graph6_encoder.rs, graph6_decoder.rs and\n"
+            "/repo/src/dot/mod.rs — do not edit.  Constants and tables as the source states them; `Theorems/C18.lean`\n"
+            "proves them equal to the definitions of the mirror models.\n-/\n"
+            "namespace PetgraphModel.Extracted.C18\n\n" + "".join(p + ("\n" if p and not p.endswith("\n\n") and p.count("\n") > 1 else "") for p in parts) +
+            "\n" + T.flags_lean() + "\nend PetgraphModel.Extracted.C18\n")
+    return T, text
 
 
 def main():
-    repo, out = "/repo", os.path.join(ROOT, "lean", "PetgraphModel", "Extracted", "C18.lean")
+    repo, out, wb = "/repo", os.path.join(ROOT, "lean", "PetgraphModel", "Extracted", "C18.lean"), False
     a = sys.argv[1:]
     while a:
         if a[0] == "--repo":
             repo = a[1]; a = a[2:]
         elif a[0] == "--out":
             out = a[1]; a = a[2:]
+        elif a[0] == "--write-baseline":
+            wb = True; a = a[1:]
         else:
             print(__doc__); sys.exit(2)
-    try:
-        text = render(extract(repo))
-        rc = 0
-    except Unrecognised as e:
-        text = ("/- GENERATED by tools/extract_c18.py: the tie to the source is BROKEN -/\n"
-                "namespace PetgraphModel.Extracted.C18\n"
-                "-- unrecognised source shape: %s\n"
-                "example : (0 : Nat) = 1 := by decide\n"
-                "end PetgraphModel.Extracted.C18\n" % str(e).replace("\n", " "))
-        print("extract_c18: tie broken:", e)
-        rc = 1
-    old = open(out).read() if os.path.exists(out) else None
-    if old != text:
-        os.makedirs(os.path.dirname(out), exist_ok=True)
-        with open(out, "w") as f:
-            f.write(text)
-    if rc == 0:
-        print("extract_c18: ok (%s)" % ("unchanged" if old == text else "rewritten"))
-    sys.exit(rc)
+    T, text = build(repo, wb)
+    sys.exit(T.finish(out, text))
 
 
 if __name__ == "__main__":
